@@ -110,7 +110,7 @@ Fixpoint collect (first : option tid) (err : option (option tid * option tid)) (
 Definition lookup_regs (s : st) (rs : list nat) : option (list rcd) :=
   sequence (map (fun k => nth_error (regs s) k) rs).
 
-Definition step (s : st) (i : instr) : st * event :=
+Definition machine_step (s : st) (i : instr) : st * event :=
   match i with
   | INewTape => (mkSt (tapes s ++ [[]]) (regs s), EUnit)
   | IVar t v =>
@@ -157,16 +157,16 @@ Definition step (s : st) (i : instr) : st * event :=
       end
   end.
 
-Fixpoint run (s : st) (p : list instr) : st * list event :=
+Fixpoint machine_run (s : st) (p : list instr) : st * list event :=
   match p with
   | [] => (s, [])
   | i :: rest =>
-      let '(s', e) := step s i in
-      let '(s'', es) := run s' rest in
+      let '(s', e) := machine_step s i in
+      let '(s'', es) := machine_run s' rest in
       (s'', e :: es)
   end.
 
-Definition init : st := mkSt [] [].
+Definition machine_init : st := mkSt [] [].
 
 End Machine.
 
